@@ -177,6 +177,12 @@ pub fn run(scn: &MScn, oracles: &[Oracle], out: &mut Outcome, fp: &mut Fp, tr: &
                             break 'ops;
                         }
                     };
+                    if info.unspecified {
+                        // D13: entry sequence pushing into the I/O page — nothing is pinned from here on
+                        out.bump("harness.unspecified-d13");
+                        foreign = true;
+                        break 'ops;
+                    }
                     if !cur.done() {
                         if has(Oracle::Core) || has(Oracle::Interrupts) || (has(Oracle::Protection) && pre_user_checked) {
                             fail!("device-io", format!("implementation made device calls the model does not expect: {:?}", &recs[cur.pos..]));
@@ -184,6 +190,9 @@ pub fn run(scn: &MScn, oracles: &[Oracle], out: &mut Outcome, fp: &mut Fp, tr: &
                         out.bump("harness.foreign-divergence");
                         foreign = true;
                         break 'ops;
+                    }
+                    if std::env::var_os("VERIF_DEBUG").is_some() {
+                        eprintln!("step {step_no}: {} -> impl {:?} pc=x{:04X} psr=x{:04X} | model {:?} pc=x{:04X} psr=x{:04X} R6=x{:04X}/x{:04X}", info.class, res, w.sim.pc, w.sim.psr().get(), mres, m.pc, m.psr, w.sim.reg_file[reg(6)].get(), m.regs[6].v);
                     }
                     kinds.insert(info.class);
                     fp.add_str(info.class);
@@ -565,7 +574,7 @@ pub fn run(scn: &MScn, oracles: &[Oracle], out: &mut Outcome, fp: &mut Fp, tr: &
         }
     }
     w.host.release_all();
-    if has(Oracle::Core) {
+    if has(Oracle::Core) && !foreign {
         if let Err((c, d)) = full_mem_compare(&w, &m) {
             return Some(Violation { class: c, step: step_no, detail: d });
         }
